@@ -263,20 +263,23 @@ def encBlockSize (bpb : Nat) : Nat :=
 def setBil (h : Handle) (v : Int) : Int × Handle :=
   if h.state = .fatal then (fatal, h) else (ok, { h with bil := v })
 
+/-- `archive_write_client_open` (with `memory_write_open` when the memory sink is used:
+"Disable padding if it hasn't been set explicitly"). -/
+def clientOpenStep (h : Handle) : Int × Handle :=
+  if h.cfState ≠ .new then (fatal, h) else
+  let h1 := if h.memSink ∧ h.openerRet = ok ∧ h.bil = -1 then { h with bil := 1 } else h
+  if h.openerRet = ok then (ok, { h1 with cfState := .open, cs := some (clientOpen h1.bpb) })
+  else (h.openerRet, { h1 with cfState := .fatal, cs := none })
+
 /-- `__archive_write_filters_open`: the client filter first, then the encoder. -/
 def filtersOpen (h : Handle) : Int × Handle :=
-  -- archive_write_client_open
-  if h.cfState ≠ .new then (fatal, h) else
-  let h1 := if h.memSink ∧ h.openerRet = ok ∧ h.bil = -1 then { h with bil := 1 } else h   -- memory_write_open
-  let (rc, h2) : Int × Handle :=
-    if h.openerRet = ok then (ok, { h1 with cfState := .open, cs := some (clientOpen h1.bpb) })
-    else (h.openerRet, { h1 with cfState := .fatal, cs := none })
-  if rc ≠ ok then (rc, h2) else
-  match h2.enc with
-  | none => (ok, h2)
+  let r := clientOpenStep h
+  if r.1 ≠ ok then r else
+  match r.2.enc with
+  | none => (ok, r.2)
   | some e =>
-    if e.fstate ≠ .new then (fatal, h2)
-    else (ok, { h2 with enc := some { e with fstate := .open, bs := encBlockSize h2.bpb, enc := e.kind.begin } })
+    if e.fstate ≠ .new then (fatal, r.2)
+    else (ok, { r.2 with enc := some { e with fstate := .open, bs := encBlockSize r.2.bpb, enc := e.kind.begin } })
 
 /-- `archive_filter_b64encode_close` / `_uuencode_close`. -/
 def encClose (w : σ) (h : Handle) (e : EncState) : Int × Handle × List Event × σ :=
@@ -325,14 +328,13 @@ def filtersClose (w : σ) (h : Handle) : Int × Handle × List Event × σ :=
 /-- `archive_write_open2` (and `archive_write_open_memory`). -/
 def apiOpen (w : σ) (h : Handle) : Int × Handle × List Event × σ :=
   if ¬ checkMagic h [.new] then (fatal, { h with state := .fatal }, [], w) else
-  let h0 := { h with hasClient := true, cfState := .new }
-  let (ret, h1) := filtersOpen h0
-  if ret < warn then
-    let r := filtersClose W w h1
+  let o := filtersOpen { h with hasClient := true, cfState := .new }
+  if o.1 < warn then
+    let r := filtersClose W w o.2
     -- __archive_write_filters_free: every filter is released
-    (imin r.1 ret,
+    (imin r.1 o.1,
      { r.2.1 with hasClient := false, enc := none, cs := none }, r.2.2.1, r.2.2.2)
-  else (ret, { h1 with state := .header }, [], w)
+  else (o.1, { o.2 with state := .header }, [], w)
 
 /-- `_archive_write_finish_entry`. -/
 def apiFinishEntry (w : σ) (h : Handle) : Int × Handle × List Event × σ :=
